@@ -59,6 +59,16 @@ def program(rng, family=None):
     n = rng.choice([8, 8, 16, 16, 32, 64])
     fams = ["dft_roundtrip", "dft_select", "dft_arith", "dft_assign", "svp", "svp_dft", "vmp", "vmp_offset", "vmp_small", "cnv", "cnv_pair", "cnv_const", "setsize"]
     fam = family or rng.choice(fams)
+    if fam == "dft_bign":
+        # the transforms switch kernels / table layouts with the ring degree (iterative vs recursive passes, block sizes):
+        # a forward/inverse round trip at EVERY power of two up to the maximum degree, linear-time for the model
+        n = rng.choice([128, 256, 512, 1024, 2048, 4096, 8192, 16384, 32768, 65536])
+        bits = pick_bits(rng, n, 1, be)
+        cls = rng.choice(["random", "random", "max", "alt", "sparse"])
+        st = [f"vec a 1 1 {value_gen(rng, n, 1, 1, bits, cls)}", f"dft d 1 1 {gen_r(rng, 5)}", "dft_apply 1 0 d 0 a 0",
+              f"big b 1 1 {gen_r(rng, 9)}", f"idft{'_tmpa' if rng.chance(1, 3) else ''} b 0 d 0", "dump b"]
+        meta = {"be": be, "n": n, "family": "dft_bign", "class": cls, "dc": 0, "step": 1, "off": 0, "rs": 1, "asz": 1}
+        return f"be={be} n={n} ; " + " ; ".join(st), meta
     cls = rng.choice(["random", "random", "random", "max", "min", "alt", "sparse", "zero"])
     st = []
     meta = {"be": be, "n": n, "family": fam, "class": cls}
